@@ -232,3 +232,17 @@ func Instant() time.Time {
 	v := int64(one("Instant"))
 	return time.Unix(time.Now().Unix()+(v-modelNowNear()), 0)
 }
+
+// Tick: natively tickers are real; wait a little longer than the queue's one second period.
+func Tick() { time.Sleep(1100 * time.Millisecond) }
+
+// NoDeadlock: natively a watchdog — if the harness has not finished after 30 s
+// (every harness that uses it finishes in a few seconds) the label is violated.
+func NoDeadlock(label string) {
+	go func() {
+		time.Sleep(30 * time.Second)
+		fmt.Printf("VREPLAY-VIOLATION label=%q\n", label)
+		fmt.Println("VREPLAY-END violation")
+		os.Exit(1)
+	}()
+}
